@@ -85,6 +85,22 @@ pub fn programs(tier: Tier) -> ProgramSet {
             }
         }
     }
+    // rare shapes and surface syntax around a DISABLED variant (other keys before / after `disabled` in one list, trailing commas,
+    // cfg_attr, foreign attributes, raw identifiers, empty field lists), N = 3 + one disabled variant in the middle
+    {
+        let mut base = EnumSpec::base(3);
+        let mut d = VariantSpec::unit("Zz");
+        d.disabled = true;
+        base.variants.insert(1, d);
+        for d in crate::devs::rare_shape_devs(4, false).into_iter().chain(crate::devs::syntax_devs(true, false, true, false)) {
+            let mut s = base.clone();
+            if (d.apply)(&mut s) && s != base {
+                let label = format!("N=3 + disabled variant middle + {}", d.label);
+                let source = render(&s);
+                out.push(Program { idx: 0, label, k: 1, spec: s, aux: json!(null), source });
+            }
+        }
+    }
     // SCALE: larger enums (cursor pairs up to (N+1)(N+2)/2 states per live iterator)
     let scale: &[usize] = if tier == Tier::Quick { &[9, 17, 256] } else { &[9, 17, 33, 65, 255, 256, 257] };
     for &n in scale {
